@@ -345,6 +345,20 @@ def print_directive_def(d):
     return s + " on " + " | ".join(d.locations)
 
 
+def supports_hetero(s):
+    """Some field returns a LIST of an interface with >= 2 implementers and a composite field: merged field nodes can differ
+    from list item to list item (docgen._hetero_merge)."""
+    for t in s.types.values():
+        if t.kind not in ("OBJECT", "INTERFACE"):
+            continue
+        for f in t.fields.values():
+            tn = named_of(f.type)
+            if "L" in str(f.type) and s.kind(tn) == "INTERFACE" and len(s.possible_types(tn)) >= 2 \
+                    and any(s.is_composite(named_of(g.type)) for g in s.types[tn].fields.values()):
+                return True
+    return False
+
+
 def print_schema_def(s):
     parts = ["  query: " + s.query]
     if s.mutation:
